@@ -710,6 +710,9 @@ func (fr *Frame) exec(reach string, st *State) (string, *State, []Val) {
 			if _, ok := in.(*ssa.Phi); ok {
 				if p := in.(*ssa.Phi); p.Comment != "" {
 					fr.record(p.Comment, fr.vals[p], false)
+					if li == nil {
+						fr.assertAtJoin(p)
+					}
 				}
 				continue
 			}
@@ -721,6 +724,9 @@ func (fr *Frame) exec(reach string, st *State) (string, *State, []Val) {
 		for _, c := range append(append([]*Clause{}, fr.spec.Asserts...), fr.spec.Assumes...) {
 			if strings.HasPrefix(c.Key, "store ") && !fr.matched[c] {
 				e.unsupported = append(e.unsupported, fmt.Sprintf("%s: %s %q [%s] matches no store (%s:%d)", fr.prefix, c.Kind, c.Key, labelOr(c), c.File, c.Line))
+			}
+			if strings.HasPrefix(c.Key, "join ") && !fr.matched[c] {
+				e.unsupported = append(e.unsupported, fmt.Sprintf("%s: %s %q [%s] matches no merge point of that variable (%s:%d)", fr.prefix, c.Kind, c.Key, labelOr(c), c.File, c.Line))
 			}
 			if c.Key == "send" && !fr.matched[c] {
 				e.unsupported = append(e.unsupported, fmt.Sprintf("%s: %s %q [%s] matches no channel send (%s:%d)", fr.prefix, c.Kind, c.Key, labelOr(c), c.File, c.Line))
@@ -1239,6 +1245,28 @@ func (fr *Frame) atReturn(vs []Val) {
 			continue
 		}
 		fr.obligeAt(fr.cur.reach, "assert-at", "return["+labelOr(c)+"]", t, c.Src)
+	}
+}
+
+// assert-at join <var> <label>: e   - checked where the branches that assign the variable meet (the phi of that
+// variable outside loop headers); the variable's name denotes the merged value
+func (fr *Frame) assertAtJoin(p *ssa.Phi) {
+	if fr.spec == nil {
+		return
+	}
+	for _, c := range fr.spec.Asserts {
+		if c.Key != "join "+p.Comment {
+			continue
+		}
+		fr.matched[c] = true
+		env := fr.envAt(fr.block, fr.idx+1, fr.cur.st, nil)
+		env.names[p.Comment] = fr.vals[p]
+		t, err := env.Goal(c.Expr)
+		if err != nil {
+			fr.e.unsupported = append(fr.e.unsupported, fmt.Sprintf("%s: assert-at join %s:%d: %v", fr.prefix, c.File, c.Line, err))
+			continue
+		}
+		fr.obligeAt(fr.cur.reach, "assert-at", "join("+p.Comment+")["+labelOr(c)+"]", t, c.Src)
 	}
 }
 
